@@ -24,7 +24,7 @@ ASSUMPTIONS = ["'once its reconnect wait has elapsed' = at the first timer check
                "not before", "a peer without addresses cannot be dialled"]
 TIMEOUT = {"quick": 900, "thorough": 3600}
 OUTCOMES = ["refused", "inprogress_ok_gone", "inprogress_fail", "cea_rejected", "cea_timeout", "gone", "error", "dpr",
-            "inbound_dup_closed"]
+            "inbound_dup_closed", "pending_inbound_lost"]
 FLAGSETS = [
     dict(persistent=True, always_reconnect=False, reconnect_wait=3, addr=True),
     dict(persistent=True, always_reconnect=True, reconnect_wait=2, addr=True),
@@ -54,8 +54,10 @@ class Case:
         self.run, self.flags, self.outcomes = run, flags, list(outcomes)
         pc = {"name": PEER, "persistent": flags["persistent"], "always_reconnect": flags["always_reconnect"],
               "reconnect_wait": flags["reconnect_wait"], "addr": flags["addr"]}
+        # a dial that stays pending must outlive a reconnect wait for "pending_inbound_lost" to mean anything
+        self.cea_timeout = flags["reconnect_wait"] + 3 if "pending_inbound_lost" in outcomes else 2
         self.w = World(dict(peers=[pc], apps=[{"tag": "a4", "id": 4, "peers": [PEER]}],
-                            node={"cea_timeout": 2, "cer_timeout": 2, "idle_timeout": 10 ** 6}))
+                            node={"cea_timeout": self.cea_timeout, "cer_timeout": 2, "idle_timeout": 10 ** 6}))
         self.h = self.w.h
         self.node = self.w.node
         self.W = flags["reconnect_wait"]
@@ -211,7 +213,8 @@ class Case:
                     self.witness("reconnect.non_persistent_peer_dialled" if not f["persistent"]
                                  else "reconnect.dialled_without_addresses", {})
             # a peer the node never dials: it connects inbound instead
-            if outcome in ("refused", "inprogress_ok_gone", "inprogress_fail", "cea_rejected", "cea_timeout"):
+            if outcome in ("refused", "inprogress_ok_gone", "inprogress_fail", "cea_rejected", "cea_timeout",
+                           "pending_inbound_lost"):
                 outcome = "gone"
             p = h.inbound(ip="10.1.0.1", port=50001)
             h.settle()
@@ -246,8 +249,30 @@ class Case:
             self.new_connects()
             self.note_loss()
             return True
+        if outcome == "pending_inbound_lost":
+            # the dial stays pending (no CEA); meanwhile the peer connects inbound, becomes ready, and that
+            # connection is lost: the pending dial is still a self-initiated connection, so no second dial
+            q = h.inbound(ip="10.1.0.1", port=50003)
+            h.settle()
+            q.send(M.cer(PEER, self.REALM, auth=[4], hbh=1, e2e=3))
+            h.settle()
+            fr = q.drain()
+            self.run.cov["pending_inbound_accepted"] = self.run.cov.get("pending_inbound_accepted", 0) + \
+                (1 if fr and fr[-1].result_code == 2001 else 0)
+            self.new_connects()
+            q.close()
+            h.settle()
+            self.new_connects()
+            for _ in range(self.cea_timeout + 2):
+                self.tick_and_judge(1, "pending-after-inbound-lost")
+                if s.closed:
+                    self.note_loss()
+                    break
+            if not s.closed:
+                self.witness("cea_timeout.not_closed", {})
+            return True
         if outcome == "cea_timeout":
-            for _ in range(4):
+            for _ in range(self.cea_timeout + 2):
                 self.tick_and_judge(1, "await-cea")
                 if s.closed:
                     self.note_loss()
